@@ -28,19 +28,38 @@ package main
 // Write are the entry's bytes whatever else happens meanwhile - i.e. nothing zap has already returned
 // to a pool is still being read.
 
+//
+// WATCHED SINKS.  The probes' own sinks only show what the probe's entry made of ITS logger.  Per-entry
+// state of a pooled CheckedEntry (ErrorOutput, cores, the terminal hook, the dirty flag) that survives
+// the entry shows somewhere else: on the error sink, the output sinks or the hook of whichever
+// UNRELATED logger used that pooled object before.  Every sink and hook therefore belongs to a scope
+// (one per history operation / probe run) that is retired when its operation is over: bytes reaching
+// a sink of a retired scope, a hook of a retired scope that fires, and any byte on the error output
+// of the active sinks' long-lived diagnostics logger (none of whose cores ever fails) are recorded in
+// c08Stale.  What is recorded while a probe runs is appended to the probe's observed bytes (the
+// fresh-state bytes never have it), what is recorded while a history operation runs is reported with
+// the history.  Logger.check overwrites ErrorOutput and the hook on the ordinary path, so the
+// vocabulary also has entries that never pass through a zap.Logger: core.Check(ent, nil).Write(), with
+// After / AddCore, through exp/zapslog's Handler, with failing sinks - as probes, as a history
+// operation and inside the active sinks.
+
 import (
 	"bytes"
+	"context"
 	"errors"
 	"fmt"
+	"log/slog"
 	"os"
 	"os/exec"
 	"runtime"
 	"strconv"
 	"strings"
 	"sync"
+	"sync/atomic"
 	"time"
 
 	"go.uber.org/zap"
+	"go.uber.org/zap/exp/zapslog"
 	"go.uber.org/zap/zapcore"
 )
 
@@ -50,8 +69,68 @@ type c08Probe struct {
 	label string
 	sx    SX // kind 0: the encoder case; kind 1: label
 	abs   SX // abstraction for the pooled model
-	run   func(act int) []byte
+	run   func(sc *c08Scope, act int) []byte
 }
+
+// ---------- watched sinks ----------
+type c08Scope struct {
+	label   string
+	retired atomic.Bool
+}
+
+func (sc *c08Scope) sink(act int, fail bool) *c08Sink { return &c08Sink{act: act, fail: fail, sc: sc} }
+func (sc *c08Scope) retire()                          { sc.retired.Store(true) }
+
+var c08Stale struct {
+	mu   sync.Mutex
+	n    int
+	what []string
+}
+
+func c08StaleAdd(what string) {
+	c08Stale.mu.Lock()
+	c08Stale.n++
+	if len(c08Stale.what) < 1<<14 {
+		c08Stale.what = append(c08Stale.what, what)
+	}
+	c08Stale.mu.Unlock()
+}
+
+func c08StaleMark() int {
+	c08Stale.mu.Lock()
+	defer c08Stale.mu.Unlock()
+	return c08Stale.n
+}
+
+// what was recorded since mark ("" = nothing)
+func c08StaleSince(mark int) string {
+	c08Stale.mu.Lock()
+	defer c08Stale.mu.Unlock()
+	if c08Stale.n == mark {
+		return ""
+	}
+	first := "?"
+	if mark < len(c08Stale.what) {
+		first = c08Stale.what[mark]
+	}
+	return fmt.Sprintf("%d stale deliveries, first: %s", c08Stale.n-mark, first)
+}
+
+func c08Clip(p []byte) string {
+	if len(p) > 160 {
+		p = p[:160]
+	}
+	return strconv.Quote(string(p))
+}
+
+// the error output of a logger none of whose cores ever fails, and which never re-uses an entry
+type c08Quiet struct{ label string }
+
+func (q c08Quiet) Write(p []byte) (int, error) {
+	c08StaleAdd("the error output of " + q.label + " (whose own writes never fail) received " + c08Clip(p))
+	return len(p), nil
+}
+func (c08Quiet) Sync() error { return nil }
 
 // ---------- building blocks ----------
 // no operation of this harness logs more than a few hundred KB in one entry; a pool that hands out
@@ -61,10 +140,14 @@ const c08MaxPayload = 1 << 25
 type c08Sink struct {
 	bytes.Buffer
 	fail bool
-	act  int // what Write does besides copying the payload (c08Nested); 0 = nothing
+	act  int       // what Write does besides copying the payload (c08Nested); 0 = nothing
+	sc   *c08Scope // the history operation / probe run whose logger this sink was built for
 }
 
 func (s *c08Sink) Write(p []byte) (int, error) {
+	if s.sc != nil && s.sc.retired.Load() {
+		c08StaleAdd("a sink of " + s.sc.label + ", which ended earlier, received " + c08Clip(p))
+	}
 	if s.fail {
 		return 0, errors.New("sink failed")
 	}
@@ -137,15 +220,23 @@ var (
 	c08AuditCons zapcore.Core
 	c08AuditLog  *zap.Logger
 	c08AuditEnc  zapcore.Encoder
+	c08AuditBare zapcore.Core // driven without a Logger; its second sink fails
 )
+
+type c08FailNull struct{}
+
+func (c08FailNull) Write(p []byte) (int, error) { return 0, errors.New("audit sink failed") }
+func (c08FailNull) Sync() error                 { return nil }
 
 func c08AuditInit() {
 	c08AuditOnce.Do(func() {
 		c08AuditJSON = zapcore.NewCore(zapcore.NewJSONEncoder(c08Cfg()), c08Null{}, zapcore.DebugLevel)
 		c08AuditCons = zapcore.NewCore(zapcore.NewConsoleEncoder(c08Cfg()), c08Null{}, zapcore.DebugLevel).With(c08Fields(1, 0, 0, 1, 0, 0, 0))
-		c08AuditLog = zap.New(zapcore.NewTee(c08AuditJSON, c08AuditCons), zap.WithClock(c08Clock{}), zap.ErrorOutput(c08Null{}),
+		c08AuditLog = zap.New(zapcore.NewTee(c08AuditJSON, c08AuditCons), zap.WithClock(c08Clock{}), zap.ErrorOutput(c08Quiet{"the active sinks' diagnostics logger"}),
 			zap.AddCaller(), zap.AddStacktrace(zapcore.DebugLevel)).Named("audit")
 		c08AuditEnc = zapcore.NewJSONEncoder(c08Cfg())
+		c08AuditBare = zapcore.NewTee(zapcore.NewCore(zapcore.NewJSONEncoder(c08Cfg()), c08Null{}, zapcore.DebugLevel),
+			zapcore.NewCore(zapcore.NewConsoleEncoder(c08Cfg()), c08FailNull{}, zapcore.DebugLevel))
 	})
 }
 
@@ -163,6 +254,11 @@ func c08Audit(which int, n int) {
 			append(c08Fields(1, 1, 0, 0, 2, 0, 0), zap.String("payload", c08AuditMsg(n))))
 	default:
 		c08AuditLog.Info(c08AuditMsg(n), zap.Reflect("r", []int{1, 2, 3}), zap.Int("n", 1))
+		// ... and forwards through a core that it drives itself (as a slog bridge does): the failure of
+		// that core's second sink has no error output to go to
+		if ce := c08AuditBare.Check(zapcore.Entry{Level: zapcore.WarnLevel, Time: c08Clock{}.Now(), Message: "forwarded"}, nil); ce != nil {
+			ce.Write(zap.Int("n", n))
+		}
 	}
 }
 
@@ -212,19 +308,20 @@ func c08ActAbs(act int) []SX {
 	j := c08Abs(0, 2, 1, 0, 0, 0, 0)
 	w, c := c08Abs(2, 1, 0, 0, 1, 0, 1), c08Abs(1, 1, 1, 0, 0, 2, 0)
 	l := c08Abs(3, 1, 1, 0, 0, 0, 6+8*4)
+	bare := c08Abs(6, 1, 0, 0, 0, 0, 1)
 	switch act {
 	case c08ActJSON:
 		return []SX{j}
 	case c08ActConsole:
 		return []SX{w, c}
 	case c08ActLogger:
-		return []SX{l}
+		return []SX{l, bare}
 	case c08ActHold:
 		return []SX{c08Abs(2, 1, 1, 0, 1, 0, 0)}
 	case c08ActBlocked:
 		return []SX{j, w, c}
 	case c08ActYield:
-		return []SX{j, w, c, l}
+		return []SX{j, w, c, l, bare}
 	}
 	return nil
 }
@@ -273,9 +370,15 @@ func (o c08Obj) MarshalLogObject(enc zapcore.ObjectEncoder) error {
 
 // a terminal hook that returns (as test hooks do): the CheckedEntry goes back to the pool with the
 // hook still set.  It must only ever see the entry it was installed for.
-type c08Hook struct{ msg string }
+type c08Hook struct {
+	msg string
+	sc  *c08Scope
+}
 
 func (h c08Hook) OnWrite(ce *zapcore.CheckedEntry, _ []zapcore.Field) {
+	if h.sc != nil && h.sc.retired.Load() {
+		c08StaleAdd("a hook of " + h.sc.label + ", which ended earlier, fired on entry " + strconv.Quote(ce.Message))
+	}
 	if ce.Message != h.msg {
 		panic("a hook of an earlier entry fired on a foreign entry: " + ce.Message)
 	}
@@ -324,7 +427,13 @@ func c08Abs(k, a, b, c, d, e, f int) SX { return L(I(k), I(a), I(b), I(c), I(d),
 // Every probe runs on a goroutine of its own, started here: the captured stack is then the same
 // (probe closure, this function literal) whoever asked for the observation.  With act = yield two
 // companion goroutines log through loggers of their own for as long as the probe runs.
-func c08call(p *c08Probe, act int) (out []byte, panicked string) {
+func c08call(p *c08Probe, act int) (out []byte, panicked string, stale string) {
+	mark := c08StaleMark()
+	sc := &c08Scope{label: "an earlier run of probe " + p.label}
+	defer func() {
+		sc.retire()
+		stale = c08StaleSince(mark)
+	}()
 	var mu sync.Mutex
 	var wg sync.WaitGroup
 	stop := make(chan struct{})
@@ -365,7 +474,7 @@ func c08call(p *c08Probe, act int) (out []byte, panicked string) {
 				mu.Unlock()
 			}
 		}()
-		out = p.run(act)
+		out = p.run(sc, act)
 	}()
 	<-done
 	close(stop)
@@ -374,7 +483,7 @@ func c08call(p *c08Probe, act int) (out []byte, panicked string) {
 }
 
 // the generated encoder case behind a real ioCore (as encCase.runJSON), with a c08Sink
-func c08RunCase(ec *encCase, console bool, act int) ([]byte, string, bool) {
+func c08RunCase(sc *c08Scope, ec *encCase, console bool, act int) ([]byte, string, bool) {
 	return catchPanic(func() []byte {
 		var enc zapcore.Encoder
 		if console {
@@ -382,7 +491,7 @@ func c08RunCase(ec *encCase, console bool, act int) ([]byte, string, bool) {
 		} else {
 			enc = zapcore.NewJSONEncoder(ec.cfg.real())
 		}
-		sink := &c08Sink{act: act}
+		sink := sc.sink(act, false)
 		var core zapcore.Core = zapcore.NewCore(enc, sink, zapcore.Level(-128))
 		for _, fs := range ec.ctxs {
 			core = core.With(fs)
@@ -414,8 +523,8 @@ func c08Deep(n int, f func()) {
 	c08Deep(n-1, f)
 }
 
-func c08Logger(act int, console bool, tee bool, failing bool, opts ...zap.Option) (*zap.Logger, *c08Sink, *c08Sink, *c08Sink) {
-	s1, s2, es := &c08Sink{act: act}, &c08Sink{fail: failing, act: act}, &c08Sink{act: act}
+func c08Logger(sc *c08Scope, act int, console bool, tee bool, failing bool, opts ...zap.Option) (*zap.Logger, *c08Sink, *c08Sink, *c08Sink) {
+	s1, s2, es := sc.sink(act, false), sc.sink(act, failing), sc.sink(act, false)
 	var enc zapcore.Encoder
 	if console {
 		enc = zapcore.NewConsoleEncoder(c08Cfg())
@@ -442,7 +551,7 @@ func c08Join(ss ...*c08Sink) []byte {
 
 func c08Probes(seed uint64) []*c08Probe {
 	var ps []*c08Probe
-	add := func(kind int, label string, sx SX, abs SX, run func(act int) []byte) {
+	add := func(kind int, label string, sx SX, abs SX, run func(sc *c08Scope, act int) []byte) {
 		if sx == nil {
 			sx = Str(label)
 		}
@@ -454,25 +563,25 @@ func c08Probes(seed uint64) []*c08Probe {
 		ec := genEncCase(r.Fork(), n%4 == 3)
 		// cases on which the encoder panics are C01's subject; on a tree where every case panics
 		// the probes are kept and the panics are reported by the fresh-state observation
-		if _, _, panicked := c08RunCase(ec, false, 0); panicked && rejected < 40 {
+		if _, _, panicked := c08RunCase(nil, ec, false, 0); panicked && rejected < 40 {
 			rejected++
 			continue
 		}
-		if _, _, panicked := c08RunCase(ec, true, 0); panicked && rejected < 40 {
+		if _, _, panicked := c08RunCase(nil, ec, true, 0); panicked && rejected < 40 {
 			rejected++
 			continue
 		}
 		if n < 8 {
-			add(0, "json-case", ec.sx, c08Abs(0, len(ec.fields), 1, 0, 1, 1, 1), func(act int) []byte {
-				out, pm, p := c08RunCase(ec, false, act)
+			add(0, "json-case", ec.sx, c08Abs(0, len(ec.fields), 1, 0, 1, 1, 1), func(sc *c08Scope, act int) []byte {
+				out, pm, p := c08RunCase(sc, ec, false, act)
 				if p {
 					panic(pm)
 				}
 				return out
 			})
 		} else {
-			add(1, "console-case", nil, c08Abs(1, len(ec.fields), 1, 0, 1, 1, 1), func(act int) []byte {
-				out, pm, p := c08RunCase(ec, true, act)
+			add(1, "console-case", nil, c08Abs(1, len(ec.fields), 1, 0, 1, 1, 1), func(sc *c08Scope, act int) []byte {
+				out, pm, p := c08RunCase(sc, ec, true, act)
 				if p {
 					panic(pm)
 				}
@@ -482,53 +591,53 @@ func c08Probes(seed uint64) []*c08Probe {
 		n++
 	}
 	// Logger probes
-	add(1, "logger-json-caller-stack", nil, c08Abs(3, 2, 1, 0, 0, 0, 6+8*3), func(act int) []byte {
-		lg, s1, s2, es := c08Logger(act, false, false, false, zap.AddCaller(), zap.AddStacktrace(zapcore.InfoLevel))
+	add(1, "logger-json-caller-stack", nil, c08Abs(3, 2, 1, 0, 0, 0, 6+8*3), func(sc *c08Scope, act int) []byte {
+		lg, s1, s2, es := c08Logger(sc, act, false, false, false, zap.AddCaller(), zap.AddStacktrace(zapcore.InfoLevel))
 		lg.Info("probe", c08Fields(2, 1, 0, 0, 0, 0, 0)...)
 		return c08Join(s1, s2, es)
 	})
-	add(1, "logger-console-caller-stack", nil, c08Abs(3, 2, 1, 1, 1, 2, 7+8*3), func(act int) []byte {
-		lg, s1, s2, es := c08Logger(act, true, false, false, zap.AddCaller(), zap.AddStacktrace(zapcore.WarnLevel))
+	add(1, "logger-console-caller-stack", nil, c08Abs(3, 2, 1, 1, 1, 2, 7+8*3), func(sc *c08Scope, act int) []byte {
+		lg, s1, s2, es := c08Logger(sc, act, true, false, false, zap.AddCaller(), zap.AddStacktrace(zapcore.WarnLevel))
 		lg.Warn("probe", c08Fields(2, 1, 1, 1, 2, 1, 0)...)
 		lg.Info("second")
 		return c08Join(s1, s2, es)
 	})
-	add(1, "logger-with-named", nil, c08Abs(2, 1, 1, 0, 1, 0, 1), func(act int) []byte {
-		lg, s1, s2, es := c08Logger(act, false, false, false)
+	add(1, "logger-with-named", nil, c08Abs(2, 1, 1, 0, 1, 0, 1), func(sc *c08Scope, act int) []byte {
+		lg, s1, s2, es := c08Logger(sc, act, false, false, false)
 		l2 := lg.With(zap.Int("a", 1), zap.Namespace("ns"), zap.Reflect("r", map[string]int{"x": 1})).Named("sub")
 		l2.Info("in namespace", zap.String("k", "v"))
 		l2.With(zap.Namespace("deeper")).Error("two", zap.Error(errors.New("boom")))
 		lg.Debug("root unaffected")
 		return c08Join(s1, s2, es)
 	})
-	add(1, "logger-tee-failing-sink", nil, c08Abs(3, 1, 0, 1, 0, 1, 1+2), func(act int) []byte {
-		lg, s1, s2, es := c08Logger(act, false, true, true, zap.AddCaller())
+	add(1, "logger-tee-failing-sink", nil, c08Abs(3, 1, 0, 1, 0, 1, 1+2), func(sc *c08Scope, act int) []byte {
+		lg, s1, s2, es := c08Logger(sc, act, false, true, true, zap.AddCaller())
 		lg.Info("tee", c08Fields(1, 0, 1, 0, 1, 0, 0)...)
 		return bytes.ReplaceAll(c08Join(s1, s2, es), []byte("1700000000"), []byte("T"))
 	})
-	add(1, "logger-stack-field", nil, c08Abs(4, 0, 0, 0, 0, 0, 5), func(act int) []byte {
-		lg, s1, s2, es := c08Logger(act, true, true, false)
+	add(1, "logger-stack-field", nil, c08Abs(4, 0, 0, 0, 0, 0, 5), func(sc *c08Scope, act int) []byte {
+		lg, s1, s2, es := c08Logger(sc, act, true, true, false)
 		lg.Info("with stack field", zap.Stack("st"), zap.StackSkip("st2", 1))
 		return c08Join(s1, s2, es)
 	})
-	add(1, "sugar-infow", nil, c08Abs(0, 3, 1, 0, 0, 0, 0), func(act int) []byte {
-		lg, s1, s2, es := c08Logger(act, false, false, false, zap.AddCaller())
+	add(1, "sugar-infow", nil, c08Abs(0, 3, 1, 0, 0, 0, 0), func(sc *c08Scope, act int) []byte {
+		lg, s1, s2, es := c08Logger(sc, act, false, false, false, zap.AddCaller())
 		lg.Sugar().Infow("sugared", "a", 1, "b", []int{1, 2}, "c", errors.New("e"))
 		lg.Sugar().Infof("%d-%s", 7, "x")
 		return c08Join(s1, s2, es)
 	})
-	add(1, "logger-big-message", nil, c08Abs(0, 3, 0, 0, 0, 0, 0), func(act int) []byte {
-		lg, s1, s2, es := c08Logger(act, false, true, false)
+	add(1, "logger-big-message", nil, c08Abs(0, 3, 0, 0, 0, 0, 0), func(sc *c08Scope, act int) []byte {
+		lg, s1, s2, es := c08Logger(sc, act, false, true, false)
 		lg.Info(strings.Repeat("m\n", 3000), c08Fields(3, 0, 0, 0, 0, 0, 700)...)
 		return c08Join(s1, s2, es)
 	})
-	add(1, "logger-deep-stack", nil, c08Abs(3, 0, 0, 0, 0, 0, 4+8*90), func(act int) []byte {
-		lg, s1, s2, es := c08Logger(act, false, false, false, zap.AddStacktrace(zapcore.DebugLevel))
+	add(1, "logger-deep-stack", nil, c08Abs(3, 0, 0, 0, 0, 0, 4+8*90), func(sc *c08Scope, act int) []byte {
+		lg, s1, s2, es := c08Logger(sc, act, false, false, false, zap.AddStacktrace(zapcore.DebugLevel))
 		c08Deep(90, func() { lg.Debug("deep") })
 		return c08Join(s1, s2, es)
 	})
-	add(1, "dpanic-hook", nil, c08Abs(3, 1, 0, 0, 0, 0, 0), func(act int) []byte {
-		lg, s1, s2, es := c08Logger(act, false, false, false, zap.Development())
+	add(1, "dpanic-hook", nil, c08Abs(3, 1, 0, 0, 0, 0, 0), func(sc *c08Scope, act int) []byte {
+		lg, s1, s2, es := c08Logger(sc, act, false, false, false, zap.Development())
 		func() {
 			defer func() { recover() }()
 			lg.DPanic("dp", zap.Int("x", 1))
@@ -536,7 +645,7 @@ func c08Probes(seed uint64) []*c08Probe {
 		lg.Info("after")
 		return c08Join(s1, s2, es)
 	})
-	add(1, "encoder-direct", nil, c08Abs(1, 2, 1, 0, 1, 0, 0), func(act int) []byte {
+	add(1, "encoder-direct", nil, c08Abs(1, 2, 1, 0, 1, 0, 0), func(sc *c08Scope, act int) []byte {
 		enc := zapcore.NewConsoleEncoder(c08Cfg())
 		enc.AddString("ctx", "v")
 		cl := enc.Clone()
@@ -554,10 +663,51 @@ func c08Probes(seed uint64) []*c08Probe {
 		buf2.Free()
 		return out
 	})
+	// entries that never pass through a zap.Logger (exp/zapslog's Handler, direct zapcore users): nothing
+	// assigns ErrorOutput or the hook, so the recycled CheckedEntry is used as reset() left it.  One
+	// of the cores fails: per contract the failure is dropped silently.
+	bareCores := func(sc *c08Scope, act int) (zapcore.Core, *c08Sink, *c08Sink) {
+		s1, s2 := sc.sink(act, false), sc.sink(act, true)
+		return zapcore.NewTee(zapcore.NewCore(zapcore.NewJSONEncoder(c08Cfg()), s1, zapcore.DebugLevel),
+			zapcore.NewCore(zapcore.NewConsoleEncoder(c08Cfg()), s2, zapcore.InfoLevel)), s1, s2
+	}
+	bareEnt := func(l zapcore.Level, msg string) zapcore.Entry {
+		return zapcore.Entry{Level: l, Time: c08Clock{}.Now(), LoggerName: "direct", Message: msg}
+	}
+	add(1, "bare-check-failing-sink", nil, c08Abs(6, 2, 1, 0, 0, 1, 1), func(sc *c08Scope, act int) []byte {
+		core, s1, s2 := bareCores(sc, act)
+		c08Bare(core, bareEnt(zapcore.InfoLevel, "bare check"), nil, nil, c08Fields(2, 1, 0, 0, 1, 0, 0))
+		// the entry just returned to the pool is the one handed out now
+		c08Bare(core.With(c08Fields(1, 0, 0, 1, 0, 0, 0)), bareEnt(zapcore.ErrorLevel, "bare check, derived core"), nil, nil, nil)
+		c08Bare(core, bareEnt(zapcore.DebugLevel, "only the first core is enabled"), nil, nil, nil)
+		c08Bare(core, bareEnt(zapcore.DebugLevel-1, "no core is enabled: nil entry"), nil, nil, nil)
+		return c08Join(s1, s2)
+	})
+	add(1, "bare-check-after-addcore", nil, c08Abs(6, 1, 0, 0, 0, 0, 3), func(sc *c08Scope, act int) []byte {
+		core, s1, s2 := bareCores(sc, act)
+		s3 := sc.sink(act, false)
+		third := zapcore.NewCore(zapcore.NewJSONEncoder(c08Cfg()), s3, zapcore.DebugLevel)
+		c08Bare(core, bareEnt(zapcore.WarnLevel, "hooked"), c08Hook{"hooked", sc}, third, c08Fields(1, 0, 0, 0, 0, 0, 0))
+		// the next entries have no hook and no third core
+		c08Bare(core, bareEnt(zapcore.WarnLevel, "plain after hooked"), nil, nil, nil)
+		c08Bare(zapcore.NewNopCore(), bareEnt(zapcore.WarnLevel, "hook only"), c08Hook{"hook only", sc}, nil, nil)
+		c08Bare(third, bareEnt(zapcore.InfoLevel, "third alone"), nil, nil, nil)
+		return c08Join(s1, s2, s3)
+	})
+	add(1, "slog-handler-failing-sink", nil, c08Abs(6, 3, 0, 0, 1, 0, 1), func(sc *c08Scope, act int) []byte {
+		core, s1, s2 := bareCores(sc, act)
+		h := zapslog.NewHandler(core, zapslog.WithName("bridge"))
+		rec := slog.NewRecord(c08Clock{}.Now(), slog.LevelInfo, "through slog", 0)
+		rec.AddAttrs(slog.Int("n", 1), slog.Group("g", slog.String("s", "t"), slog.Any("e", errors.New("boom"))))
+		_ = h.Handle(context.Background(), rec)
+		rec2 := slog.NewRecord(c08Clock{}.Now(), slog.LevelError, "through slog, derived handler", 0)
+		_ = h.WithGroup("grp").WithAttrs([]slog.Attr{slog.String("ctx", "v")}).Handle(context.Background(), rec2)
+		return c08Join(s1, s2)
+	})
 	// foreign code that runs in the middle of a zap operation: a marshaler (in a With context and in
 	// the entry's fields) and a hook that log through other loggers; tee of a JSON and a console core
-	add(1, "logger-active-marshaler-hook", nil, c08Abs(3, 3, 1, 0, 1, 2, 2+8*2), func(act int) []byte {
-		lg, s1, s2, es := c08Logger(act, false, true, false, zap.AddCaller(),
+	add(1, "logger-active-marshaler-hook", nil, c08Abs(3, 3, 1, 0, 1, 2, 2+8*2), func(sc *c08Scope, act int) []byte {
+		lg, s1, s2, es := c08Logger(sc, act, false, true, false, zap.AddCaller(),
 			zap.Hooks(func(zapcore.Entry) error { c08Nested(act, 0)(); return nil }))
 		l2 := lg.With(zap.Object("ctx", c08ActObj{act, c08Fields(2, 1, 0, 0, 0, 0, 0)}))
 		l2.Info("marshaler logs", zap.Object("o", c08ActObj{act, c08Fields(2, 1, 0, 1, 2, 0, 0)}), zap.String("tail", "t"))
@@ -568,10 +718,34 @@ func c08Probes(seed uint64) []*c08Probe {
 }
 
 // ---------- history operations ----------
-const c08NKinds = 15
+const c08NKinds = 16
 
-// executes one history operation; returns its abstraction and a class letter
+// executes one history operation; returns its abstraction and a class letter.  Its sinks and hooks
+// are retired when it is over; whatever reached a retired sink / hook meanwhile is unexpected.
 func c08HistOp(r *RNG, kind int) (desc SX, class string, unexpected string) {
+	mark := c08StaleMark()
+	sc := &c08Scope{label: "history operation " + strconv.Itoa(kind)}
+	desc, class, unexpected = c08HistOp1(sc, r, kind)
+	sc.retire()
+	if st := c08StaleSince(mark); st != "" && unexpected == "" {
+		unexpected = fmt.Sprintf("during history operation kind %d: %s", kind, st)
+	}
+	return
+}
+
+// one entry driven through a core without a zap.Logger: Check(ent, nil), maybe After / AddCore, Write
+func c08Bare(core zapcore.Core, ent zapcore.Entry, hook zapcore.CheckWriteHook, extra zapcore.Core, fs []zapcore.Field) {
+	ce := core.Check(ent, nil)
+	if hook != nil {
+		ce = ce.After(ent, hook)
+	}
+	if extra != nil {
+		ce = ce.AddCore(ent, extra)
+	}
+	ce.Write(fs...) // a nil entry (level disabled, no hook) is a no-op
+}
+
+func c08HistOp1(sc *c08Scope, r *RNG, kind int) (desc SX, class string, unexpected string) {
 	a, b, c, d, e, f := r.Intn(4), r.Intn(3), r.Intn(2), r.Intn(3), r.Intn(3), r.Intn(4)
 	// a panic that reaches quiet was not part of the script of the operation
 	var mu sync.Mutex
@@ -588,22 +762,22 @@ func c08HistOp(r *RNG, kind int) (desc SX, class string, unexpected string) {
 	switch kind {
 	case 0: // simple JSON write
 		quiet(func() {
-			core := zapcore.NewCore(zapcore.NewJSONEncoder(c08Cfg()), &c08Sink{}, zapcore.DebugLevel)
+			core := zapcore.NewCore(zapcore.NewJSONEncoder(c08Cfg()), sc.sink(0, false), zapcore.DebugLevel)
 			_ = core.Write(zapcore.Entry{Message: "h", LoggerName: "hist", Stack: "st"}, c08Fields(a, b, c, d, e, f, 0))
 		})
 		return c08Abs(0, a, b, c, d, e, f), "j", unexpected
 	case 1: // simple console write
 		quiet(func() {
-			core := zapcore.NewCore(zapcore.NewConsoleEncoder(c08Cfg()), &c08Sink{}, zapcore.DebugLevel)
+			core := zapcore.NewCore(zapcore.NewConsoleEncoder(c08Cfg()), sc.sink(0, false), zapcore.DebugLevel)
 			_ = core.Write(zapcore.Entry{Message: "h", LoggerName: "hist", Caller: zapcore.EntryCaller{Defined: true, File: "/a/b/c.go", Line: 7}},
 				c08Fields(a, b, c, d, e, f, 0))
 		})
 		return c08Abs(1, a, b, c, d, e, f), "c", unexpected
 	case 2: // With (encoder clones kept alive), then a write through the derived core
 		quiet(func() {
-			var core zapcore.Core = zapcore.NewCore(zapcore.NewJSONEncoder(c08Cfg()), &c08Sink{}, zapcore.DebugLevel)
+			var core zapcore.Core = zapcore.NewCore(zapcore.NewJSONEncoder(c08Cfg()), sc.sink(0, false), zapcore.DebugLevel)
 			if f%2 == 1 {
-				core = zapcore.NewCore(zapcore.NewConsoleEncoder(c08Cfg()), &c08Sink{}, zapcore.DebugLevel)
+				core = zapcore.NewCore(zapcore.NewConsoleEncoder(c08Cfg()), sc.sink(0, false), zapcore.DebugLevel)
 			}
 			c2 := core.With(c08Fields(a, b, c, d, e, 0, 0))
 			c3 := c2.With(c08Fields(1, 1, 0, 1, 0, 0, 0))
@@ -620,13 +794,13 @@ func c08HistOp(r *RNG, kind int) (desc SX, class string, unexpected string) {
 			if fl&4 != 0 {
 				opts = append(opts, zap.AddStacktrace(zapcore.DebugLevel))
 			}
-			lg, _, _, _ := c08Logger(0, false, true, fl&1 != 0, opts...)
+			lg, _, _, _ := c08Logger(sc, 0, false, true, fl&1 != 0, opts...)
 			lg.Info("hist call", c08Fields(a, b, c, d, e, f, 0)...)
 		})
 		return c08Abs(3, a, b, c, d, e, fl+8*4), "l", unexpected
 	case 4: // zap.Stack
 		quiet(func() {
-			lg, _, _, _ := c08Logger(0, true, false, false)
+			lg, _, _, _ := c08Logger(sc, 0, true, false, false)
 			lg.Info("s", zap.Stack("stack"))
 		})
 		return c08Abs(4, 0, 0, 0, 0, 0, 5), "s", unexpected
@@ -641,13 +815,13 @@ func c08HistOp(r *RNG, kind int) (desc SX, class string, unexpected string) {
 	case 8: // big entries: buffers grow far beyond their initial capacity
 		n := 300 + r.Intn(3000)
 		quiet(func() {
-			lg, _, _, _ := c08Logger(0, r.Bool(), true, false)
+			lg, _, _, _ := c08Logger(sc, 0, r.Bool(), true, false)
 			lg.Info(strings.Repeat("big", n), c08Fields(2, 1, 0, 1, 0, 0, n)...)
 		})
 		return c08Abs(0, 2, 1, 0, 1, 0, 0), "b", unexpected
 	case 9: // a panicking marshaler: pooled objects of that call are never returned
 		quiet(func() {
-			lg, _, _, _ := c08Logger(0, r.Bool(), false, false, zap.AddCaller(), zap.AddStacktrace(zapcore.DebugLevel))
+			lg, _, _, _ := c08Logger(sc, 0, r.Bool(), false, false, zap.AddCaller(), zap.AddStacktrace(zapcore.DebugLevel))
 			func() {
 				defer func() {
 					if e := recover(); e != nil && fmt.Sprint(e) != "marshaler panic" {
@@ -661,7 +835,7 @@ func c08HistOp(r *RNG, kind int) (desc SX, class string, unexpected string) {
 	case 10: // deep stack: Stack.storage is replaced by a larger one
 		n := 70 + r.Intn(200)
 		quiet(func() {
-			lg, _, _, _ := c08Logger(0, false, false, false, zap.AddStacktrace(zapcore.DebugLevel))
+			lg, _, _, _ := c08Logger(sc, 0, false, false, false, zap.AddStacktrace(zapcore.DebugLevel))
 			c08Deep(n, func() { lg.Info("deep", zap.Stack("again")) })
 		})
 		return c08Abs(3, 0, 0, 0, 0, 0, 4+8*n), "d", unexpected
@@ -687,9 +861,9 @@ func c08HistOp(r *RNG, kind int) (desc SX, class string, unexpected string) {
 		return c08Abs(2, a, b, c, d, e, f), "e", unexpected
 	case 12: // checked entries that are never written; terminal hooks
 		quiet(func() {
-			lg, _, _, _ := c08Logger(0, false, false, false, zap.WithFatalHook(zapcore.WriteThenGoexit), zap.AddCaller())
+			lg, _, _, _ := c08Logger(sc, 0, false, false, false, zap.WithFatalHook(zapcore.WriteThenGoexit), zap.AddCaller())
 			_ = lg.Check(zapcore.InfoLevel, "never written")
-			l3, _, _, _ := c08Logger(0, true, true, true, zap.WithFatalHook(c08Hook{"returning fatal"}), zap.WithPanicHook(c08Hook{"returning panic"}))
+			l3, _, _, _ := c08Logger(sc, 0, true, true, true, zap.WithFatalHook(c08Hook{"returning fatal", sc}), zap.WithPanicHook(c08Hook{"returning panic", sc}))
 			l3.Fatal("returning fatal", zap.Int("a", 1))
 			l3.Panic("returning panic")
 			if ce := lg.Check(zapcore.WarnLevel, "written twice"); ce != nil {
@@ -719,12 +893,39 @@ func c08HistOp(r *RNG, kind int) (desc SX, class string, unexpected string) {
 	case 13: // loggers whose sinks are themselves active (log, hold buffers, block, yield inside Write)
 		act := 1 + r.Intn(c08NActs-1)
 		quiet(func() {
-			lg, _, _, _ := c08Logger(act, f%2 == 1, true, false, zap.AddCaller())
+			lg, _, _, _ := c08Logger(sc, act, f%2 == 1, true, false, zap.AddCaller())
 			lg.Info("hist through active sinks", c08Fields(a, b, c, d, e, f, 0)...)
-			core := zapcore.NewCore(zapcore.NewConsoleEncoder(c08Cfg()), &c08Sink{act: act}, zapcore.DebugLevel)
+			core := zapcore.NewCore(zapcore.NewConsoleEncoder(c08Cfg()), sc.sink(act, false), zapcore.DebugLevel)
 			_ = core.With(c08Fields(1, 0, 0, 1, 0, 0, 0)).Write(zapcore.Entry{Message: "h"}, c08Fields(a, b, 0, 0, e, 0, 0))
 		})
 		return c08Abs(3, a, b, c, d, e, 2+8*4), "a", unexpected
+	case 15: // entries that never pass through a zap.Logger: Check(ent, nil) + Write, After, AddCore, failing sinks, slog bridge
+		fl := r.Intn(16)
+		quiet(func() {
+			good, bad := sc.sink(0, false), sc.sink(0, fl&1 != 0)
+			var core zapcore.Core = zapcore.NewTee(zapcore.NewCore(zapcore.NewJSONEncoder(c08Cfg()), good, zapcore.DebugLevel),
+				zapcore.NewCore(zapcore.NewConsoleEncoder(c08Cfg()), bad, zapcore.InfoLevel))
+			if fl&4 != 0 {
+				core = core.With(c08Fields(1, 0, 0, 1, 0, 0, 0))
+			}
+			var hook zapcore.CheckWriteHook
+			if fl&2 != 0 {
+				hook = c08Hook{"hist bare", sc} // a returning hook: it goes back to the pool with the entry
+			}
+			var extra zapcore.Core
+			if fl&8 != 0 {
+				extra = zapcore.NewCore(zapcore.NewJSONEncoder(c08Cfg()), sc.sink(0, f%2 == 1), zapcore.DebugLevel)
+			}
+			ent := zapcore.Entry{Level: zapcore.Level(r.Intn(4) - 1), Time: c08Clock{}.Now(), Message: "hist bare", LoggerName: "direct"}
+			c08Bare(core, ent, hook, extra, c08Fields(a, b, c, d, e, f, 0))
+			if fl&1 == 0 && fl&8 != 0 {
+				h := zapslog.NewHandler(core, zapslog.WithCaller(fl&2 != 0))
+				rec := slog.NewRecord(c08Clock{}.Now(), slog.LevelWarn, "hist slog", 0)
+				rec.AddAttrs(slog.Int("a", a), slog.Group("g", slog.String("s", "t")))
+				_ = h.WithAttrs([]slog.Attr{slog.String("ctx", "v")}).Handle(context.Background(), rec)
+			}
+		})
+		return c08Abs(6, a, b, c, d, e, fl&3), "y", unexpected
 	default: // a burst of concurrent logging on other loggers
 		var wg sync.WaitGroup
 		for g := 0; g < 4; g++ {
@@ -759,9 +960,12 @@ func c08(c *Ctx) {
 	// child mode: print the fresh bytes of one probe, as the first logging activity of the process
 	if k := os.Getenv("C08_CHILD"); k != "" {
 		id, _ := strconv.Atoi(k)
-		out, pm := c08call(probes[id], 0)
+		out, pm, st := c08call(probes[id], 0)
 		if pm != "" {
 			out = []byte("PANIC " + pm)
+		}
+		if st != "" {
+			out = append(out, []byte("<STALE "+st+">")...)
 		}
 		os.Stdout.Write([]byte(fmt.Sprintf("C08FRESH %x\n", out)))
 		c.out.Flush()
@@ -823,7 +1027,12 @@ func c08(c *Ctx) {
 		if mismatches > 150 {
 			panic(c08Abort{})
 		}
-		out, pm := c08call(p, act)
+		out, pm, st := c08call(p, act)
+		if st != "" {
+			// per-entry state of a pooled object outlived its entry: the probe made bytes appear on a
+			// sink (or fired a hook) of an unrelated, earlier logger
+			out = append(out, []byte("<STALE "+st+">")...)
+		}
 		if !bytes.Equal(out, fresh[p.id]) {
 			mismatches++
 			// runaway output (buffers that are never reset): keep the case, and the run, small
@@ -843,10 +1052,13 @@ func c08(c *Ctx) {
 	for _, p := range probes {
 		runtime.GC()
 		runtime.GC()
-		out, pm := c08call(p, 0)
+		out, pm, st := c08call(p, 0)
 		if pm != "" {
 			viol("probe "+p.label+" panicked in a fresh state: "+pm, L(I(p.id)))
 			out = []byte("PANIC " + pm)
+		}
+		if st != "" {
+			viol("probe "+p.label+" in a fresh state: "+st, L(I(p.id)))
 		}
 		fresh[p.id] = out
 	}
@@ -898,7 +1110,9 @@ func c08(c *Ctx) {
 	// probe after probe (each probe is also a history for every other one)
 	for _, p := range probes {
 		for _, q := range probes {
-			c08call(p, 0)
+			if _, _, st := c08call(p, 0); st != "" {
+				viol("probe "+p.label+" (as history): "+st, L(I(p.id)))
+			}
 			observe(q, []SX{p.abs}, "q", "probe-pair", 0)
 		}
 	}
